@@ -455,6 +455,16 @@ def run_roundtrip(doc, log):
     p2 = np.asarray(b2.points)
     if p2.shape[0] != m.npoints or not np.array_equal(p2[:, : m.dim], m.points) or (p2.shape[1] > m.dim and np.any(p2[:, m.dim :] != 0)):
         raise Violation(PROP, "round-trip", "points differ after write/read without dim= (in-plane coordinates changed or padding not zero)", site=f"read.{fmt}.points-default-dim")
+    # merged read of a single cell block: one shared point array, cells still describe the geometry
+    back3 = fem.mesh.read(name, dim=m.dim, merge=True)
+    b3 = back3.meshes[0]
+    if back3.points is not b3.points:
+        raise Violation(PROP, "shared-points", "container read with merge=True: the mesh does not reference the container's point array", site=f"read.{fmt}.merge-single-block")
+    if b3.cells.shape != m.cells.shape or not np.allclose(back3.points[b3.cells], m.points[m.cells], rtol=0, atol=1e-7):
+        raise Violation(PROP, "round-trip", "cell corner coordinates changed in a merged read of a single block", site=f"read.{fmt}.merge-single-block")
+    again = back3.as_meshio()
+    if not np.allclose(np.asarray(again.points)[:, : m.dim][again.cells[0].data], m.points[m.cells], rtol=0, atol=1e-7):
+        raise Violation(PROP, "round-trip", "container.as_meshio() after a merged read pairs cells with the wrong points", site=f"read.{fmt}.merge-single-block")
     log.count("roundtrip-compared")
     return {"signature": f"roundtrip|{m.cell_type}|{fmt}|{doc['mesh'].get('perturb') is not None}", "nontrivial": True}
 
